@@ -261,4 +261,158 @@ example : (offloadRule 4).fires (fun _ ip => ip == "10.0.0.1") ⟨.established, 
     (offloadRule 4).fires (fun _ ip => ip == "10.0.0.1") ⟨.established, "10.0.0.2", "10.0.0.1"⟩ = false ∧
     (offloadRule 4).fires (fun _ ip => ip == "10.0.0.1") ⟨.new, "10.0.0.2", "10.0.0.3"⟩ = false := by decide
 
+/-! ### flowtableManager: which devices are in the flowtable -/
+
+/-- What the handlers must have been given, as a function of the two active sets. -/
+def ftWant (m : FtMgr) : List (List String) × List String :=
+  (m.targets.map (fun t => sortStrings (t.filter (fun d => m.activeOverlay.contains d))), sortStrings m.activeExternal)
+
+theorem onIface_spec (pattern : String → Bool) (m : FtMgr) (n : String) (s : Bool) :
+    let m' := m.onIface pattern n s
+    m'.targets = m.targets ∧ m'.last = m.last ∧
+    (∀ x, x ∈ m'.activeOverlay ↔ if x = n ∧ m.isOverlayDevice n = true then s = true else x ∈ m.activeOverlay) ∧
+    (∀ x, x ∈ m'.activeExternal ↔
+      if x = n ∧ m.isOverlayDevice n = false ∧ pattern n = true then s = true else x ∈ m.activeExternal) ∧
+    (m' = m ∨ m'.dirty = true) := by
+  unfold FtMgr.onIface
+  generalize m.isOverlayDevice n = b
+  cases b
+  · -- not an overlay device
+    simp only [Bool.false_eq_true, if_false]
+    cases hp : pattern n
+    · simp only [Bool.false_eq_true, if_false]
+      refine ⟨by simp, by simp, ?_, ?_, by simp⟩ <;> intro x <;> by_cases e : x = n <;> simp_all
+    · simp only [if_true]
+      cases s
+      · simp only [Bool.false_eq_true, if_false]
+        by_cases hc : m.activeExternal.contains n = true
+        · simp only [hc, Bool.not_true, Bool.false_eq_true, if_false]
+          refine ⟨by simp, by simp, ?_, ?_, by simp⟩ <;> intro x <;> by_cases e : x = n <;> simp_all [List.mem_filter]
+        · simp only [hc, Bool.not_false, if_true]
+          refine ⟨by simp, by simp, ?_, ?_, by simp⟩ <;> intro x <;> by_cases e : x = n <;> simp_all
+      · simp only [if_true]
+        by_cases hc : m.activeExternal.contains n = true
+        · simp only [hc, if_true]
+          refine ⟨by simp, by simp, ?_, ?_, by simp⟩ <;> intro x <;> by_cases e : x = n <;> simp_all
+        · simp only [hc, if_false]
+          refine ⟨by simp, by simp, ?_, ?_, by simp⟩ <;> intro x <;> by_cases e : x = n <;> simp_all
+  · simp only [if_true]
+    cases s
+    · simp only [Bool.false_eq_true, if_false]
+      by_cases hc : m.activeOverlay.contains n = true
+      · simp only [hc, Bool.not_true, Bool.false_eq_true, if_false]
+        refine ⟨by simp, by simp, ?_, ?_, by simp⟩ <;> intro x <;> by_cases e : x = n <;> simp_all [List.mem_filter]
+      · simp only [hc, Bool.not_false, if_true]
+        refine ⟨by simp, by simp, ?_, ?_, by simp⟩ <;> intro x <;> by_cases e : x = n <;> simp_all
+    · simp only [if_true]
+      by_cases hc : m.activeOverlay.contains n = true
+      · simp only [hc, if_true]
+        refine ⟨by simp, by simp, ?_, ?_, by simp⟩ <;> intro x <;> by_cases e : x = n <;> simp_all
+      · simp only [hc, if_false]
+        refine ⟨by simp, by simp, ?_, ?_, by simp⟩ <;> intro x <;> by_cases e : x = n <;> simp_all
+
+structure FtRel (pattern : String → Bool) (targets : List (List String)) (m : FtMgr) (u : String → Bool) : Prop where
+  tg : m.targets = targets
+  ov : ∀ n, n ∈ m.activeOverlay ↔ (m.isOverlayDevice n = true ∧ u n = true)
+  ex : ∀ n, n ∈ m.activeExternal ↔ (m.isOverlayDevice n = false ∧ pattern n = true ∧ u n = true)
+  clean : m.dirty = false → m.last = some (ftWant m)
+
+theorem ft_step (pattern : String → Bool) (targets : List (List String)) (m : FtMgr) (u : String → Bool)
+    (op : FtOp) (r : FtRel pattern targets m u) :
+    FtRel pattern targets (m.step pattern op) (ftUpStep u op) := by
+  obtain ⟨tg, ov, ex, clean⟩ := r
+  cases op with
+  | complete =>
+    simp only [FtMgr.step, ftUpStep, FtMgr.complete]
+    cases hd : m.dirty
+    · simp only [Bool.not_false, if_true]; exact ⟨tg, ov, ex, clean⟩
+    · simp only [Bool.not_true, Bool.false_eq_true, if_false]
+      exact ⟨tg, ov, ex, fun _ => rfl⟩
+  | iface n s =>
+    obtain ⟨h1, h2, h3, h4, h5⟩ := onIface_spec pattern m n s
+    simp only [FtMgr.step, ftUpStep]
+    have hiso : ∀ x, (m.onIface pattern n s).isOverlayDevice x = m.isOverlayDevice x := by
+      intro x; unfold FtMgr.isOverlayDevice; rw [h1]
+    refine ⟨h1.trans tg, ?_, ?_, ?_⟩
+    · intro x
+      rw [h3 x, hiso x]
+      by_cases e : x = n
+      · subst e
+        by_cases hb : m.isOverlayDevice x = true
+        · simp [hb]
+        · have := ov x; simp_all
+      · simp [e, ov x]
+    · intro x
+      rw [h4 x, hiso x]
+      by_cases e : x = n
+      · subst e
+        by_cases hb : m.isOverlayDevice x = false ∧ pattern x = true
+        · simp [hb.1, hb.2]
+        · have := ex x
+          by_cases h' : m.isOverlayDevice x = false <;> by_cases h'' : pattern x = true <;> simp_all
+      · simp [e, ex x]
+    · intro hd
+      rcases h5 with h5 | h5
+      · rw [h5] at hd ⊢; exact clean hd
+      · rw [h5] at hd; cases hd
+
+theorem ft_run_rel (pattern : String → Bool) (targets : List (List String)) (ops : List FtOp) :
+    FtRel pattern targets (ftRun pattern targets ops) (ftUp ops) := by
+  unfold ftRun ftUp
+  suffices h : ∀ m u, FtRel pattern targets m u →
+      FtRel pattern targets (ops.foldl (FtMgr.step pattern) m) (ops.foldl ftUpStep u) by
+    apply h
+    refine ⟨rfl, ?_, ?_, by simp [FtMgr.new]⟩ <;> intro n <;> simp [FtMgr.new]
+  induction ops with
+  | nil => intro m u r; exact r
+  | cons op r ih => intro m u rel; exact ih _ _ (ft_step pattern targets m u op rel)
+
+/-- **The flowtable device set is exact.**  After ANY history of interface state updates and
+`CompleteDeferredWork` calls, whenever no work is pending each handler was last given exactly those of
+ITS overlay devices that are currently up (sorted), and every handler the (sorted) interfaces that
+match the external pattern, are not overlay devices of any handler, and are currently up. -/
+theorem flowtable_devices_exact (pattern : String → Bool) (targets : List (List String)) (ops : List FtOp)
+    (hd : (ftRun pattern targets ops).dirty = false) :
+    ∃ ext, (ftRun pattern targets ops).last =
+        some (targets.map (fun t => sortStrings (t.filter (fun d => ftUp ops d))), ext) ∧
+      ∀ d, d ∈ ext ↔ ((targets.any (fun t => t.contains d)) = false ∧ pattern d = true ∧ ftUp ops d = true) := by
+  have hr := ft_run_rel pattern targets ops
+  obtain ⟨tg, ov, ex, clean⟩ := hr
+  refine ⟨sortStrings (ftRun pattern targets ops).activeExternal, ?_, ?_⟩
+  · rw [clean hd]
+    unfold ftWant
+    rw [tg]
+    congr 2
+    apply List.map_congr_left
+    intro t ht
+    congr 1
+    apply List.filter_congr
+    intro d hdt
+    have hiso : (ftRun pattern targets ops).isOverlayDevice d = true := by
+      unfold FtMgr.isOverlayDevice; rw [tg]
+      simp only [List.any_eq_true, List.contains_iff_mem]
+      exact ⟨t, ht, hdt⟩
+    have := ov d
+    rw [Bool.eq_iff_iff]
+    simp only [List.contains_iff_mem, this, hiso, true_and]
+  · intro d
+    unfold sortStrings
+    rw [List.mem_mergeSort, ex d]
+    unfold FtMgr.isOverlayDevice
+    rw [tg]
+
+theorem ft_complete_cleans (pattern : String → Bool) (targets : List (List String)) (ops : List FtOp) :
+    (ftRun pattern targets (ops ++ [.complete])).dirty = false := by
+  unfold ftRun
+  rw [List.foldl_append]
+  simp only [List.foldl_cons, List.foldl_nil, FtMgr.step, FtMgr.complete]
+  cases h : (List.foldl (FtMgr.step pattern) (FtMgr.new targets) ops).dirty <;> simp [h]
+
+example :
+    let m := ftRun (fun n => n == "eth0" || n == "eth1") [["vxlan.calico"], ["vxlan-v6.calico"]]
+      [.iface "vxlan.calico" true, .iface "eth0" true, .iface "lo" true, .iface "eth1" true, .iface "eth1" false,
+       .complete]
+    m.dirty = false ∧ m.activeOverlay = ["vxlan.calico"] ∧ m.activeExternal = ["eth0"] ∧ m.last.isSome = true := by
+  decide
+
 end CalicoVerif.C41
